@@ -36,7 +36,7 @@ ASSUMPTIONS = [
     "no other live node has taken over a serialized id at deserialization time (alive-subsets arise from dropping handles / detaching whole trees)",
     "Any-typed properties, NaN/inf, lone surrogates and ints beyond 64 bits are outside the generator",
 ]
-MUST_SEE = ["union_field_non_first_member", "other_dialect_call_before_roundtrip", "recreated_with_suffix_id", "shared_subtrees", "fresh_process_cases", "subforest_alive", "none_alive", "all_alive", "multi_origin", "hostile_strings", "index_sources", "yaml", "msgpck", "json", "failed_call_before_roundtrip"]
+MUST_SEE = ["subclass_clear_registry_calls", "union_field_non_first_member", "other_dialect_call_before_roundtrip", "recreated_with_suffix_id", "shared_subtrees", "fresh_process_cases", "subforest_alive", "none_alive", "all_alive", "multi_origin", "hostile_strings", "index_sources", "yaml", "msgpck", "json", "failed_call_before_roundtrip"]
 CONFIG = {
     "quick": {"shards": 16, "trees": 60, "fresh": 6, "watchdog_s": 600},
     "thorough": {"shards": 32, "trees": 400, "fresh": 60, "watchdog_s": 3400},
@@ -141,6 +141,13 @@ def run_shard(ctx):
     fresh_jobs = []
     for i in range(O.N_SOURCES):
         O.source(i)
+    if ctx.shard % 2:
+        # clear_registry() called through subclasses: leaves the (base class) source registry as it is
+        from pyoak.origin import MemoryTextSource, TextSource
+
+        TextSource.clear_registry()
+        MemoryTextSource.clear_registry()
+        ctx.count("subclass_clear_registry_calls", 2)
 
     # ---- directed probe: multi-origin built directly with a tuple (K-C04-1)
     if ctx.only_case is None:
